@@ -315,6 +315,153 @@ pub fn equivalent(a: &Nfa, b: &Nfa) -> Result<ProductStats, (Cex, ProductStats)>
     Ok(st)
 }
 
+/// NFA whose edges carry a *reading* symbol (what word it consumes) and a *label* symbol
+/// (the full expected item: text, description, level).
+#[derive(Clone, Debug, Default)]
+pub struct LNfa {
+    pub starts: BTreeSet<usize>,
+    pub accept: Vec<bool>,
+    pub trans: Vec<Vec<(Sym, Sym, usize)>>,
+}
+
+impl LNfa {
+    pub fn accepting(&self, set: &BTreeSet<usize>) -> bool {
+        set.iter().any(|s| self.accept[*s])
+    }
+    /// reading -> (targets, labels enabled under that reading)
+    pub fn step(&self, set: &BTreeSet<usize>) -> BTreeMap<Sym, (BTreeSet<usize>, BTreeSet<Sym>)> {
+        let mut m: BTreeMap<Sym, (BTreeSet<usize>, BTreeSet<Sym>)> = BTreeMap::new();
+        for s in set {
+            for (r, l, t) in &self.trans[*s] {
+                let e = m.entry(*r).or_default();
+                e.0.insert(*t);
+                e.1.insert(*l);
+            }
+        }
+        m
+    }
+    pub fn plain(&self) -> Nfa {
+        Nfa {
+            starts: self.starts.clone(),
+            accept: self.accept.clone(),
+            trans: self.trans.iter().map(|v| v.iter().map(|(r, _, t)| (*r, *t)).collect()).collect(),
+        }
+    }
+}
+
+/// Subset construction by *reading*; every DFA edge symbol is "reading{sorted labels}" so that the
+/// canonical form of the result identifies the language of words together with the labels
+/// expected at every point.
+pub fn determinize_l(l: &LNfa, names: &mut Interner) -> Dfa {
+    let mut ids: HashMap<BTreeSet<usize>, usize> = HashMap::new();
+    let mut d = Dfa::default();
+    let mut q = VecDeque::new();
+    ids.insert(l.starts.clone(), 0);
+    d.accept.push(l.accepting(&l.starts));
+    d.trans.push(BTreeMap::new());
+    q.push_back(l.starts.clone());
+    while let Some(set) = q.pop_front() {
+        let from = ids[&set];
+        for (r, (tgt, labels)) in l.step(&set) {
+            let mut ls: Vec<String> = labels.iter().map(|x| names.name(*x).to_string()).collect();
+            ls.sort();
+            let sym_name = format!("{}{{{}}}", names.name(r), ls.join("\u{1e}"));
+            let sym = names.get(&sym_name);
+            let id = match ids.get(&tgt) {
+                Some(i) => *i,
+                None => {
+                    let i = d.accept.len();
+                    ids.insert(tgt.clone(), i);
+                    d.accept.push(l.accepting(&tgt));
+                    d.trans.push(BTreeMap::new());
+                    q.push_back(tgt);
+                    i
+                }
+            };
+            d.trans[from].insert(sym, id);
+        }
+    }
+    d
+}
+
+/// Product of two labelled NFAs, stepping by *reading* (subset construction on both sides).
+/// Invariant per reachable pair: acceptance agrees, the same readings are enabled, and under
+/// each reading the same set of labels is expected.
+pub fn equivalent_l(a: &LNfa, b: &LNfa) -> Result<ProductStats, (Cex, ProductStats)> {
+    type Pair = (BTreeSet<usize>, BTreeSet<usize>);
+    let mut seen: HashMap<Pair, usize> = HashMap::new();
+    let mut parent: Vec<(usize, Sym)> = vec![];
+    let mut q: VecDeque<(Pair, usize)> = VecDeque::new();
+    let start: Pair = (a.starts.clone(), b.starts.clone());
+    seen.insert(start.clone(), 0);
+    parent.push((usize::MAX, 0));
+    q.push_back((start, 0));
+    let mut st = ProductStats::default();
+    let path_to = |parent: &Vec<(usize, Sym)>, mut i: usize| {
+        let mut p = vec![];
+        while parent[i].0 != usize::MAX {
+            p.push(parent[i].1);
+            i = parent[i].0;
+        }
+        p.reverse();
+        p
+    };
+    while let Some(((sa, sb), idx)) = q.pop_front() {
+        st.states += 1;
+        let acc_a = a.accepting(&sa);
+        let acc_b = b.accepting(&sb);
+        if acc_a != acc_b {
+            return Err((
+                Cex { path: path_to(&parent, idx), why: format!("acceptance differs: left={acc_a} right={acc_b}") },
+                st,
+            ));
+        }
+        let ma = a.step(&sa);
+        let mb = b.step(&sb);
+        for (k, (_, la)) in &ma {
+            match mb.get(k) {
+                None => {
+                    let mut p = path_to(&parent, idx);
+                    p.push(*la.iter().next().unwrap());
+                    return Err((Cex { path: p, why: "item expected on the left only".into() }, st));
+                }
+                Some((_, lb)) => {
+                    if let Some(x) = la.difference(lb).next() {
+                        let mut p = path_to(&parent, idx);
+                        p.push(*x);
+                        return Err((Cex { path: p, why: "item expected on the left only (same word is expected on the right with another label)".into() }, st));
+                    }
+                    if let Some(x) = lb.difference(la).next() {
+                        let mut p = path_to(&parent, idx);
+                        p.push(*x);
+                        return Err((Cex { path: p, why: "item expected on the right only (same word is expected on the left with another label)".into() }, st));
+                    }
+                }
+            }
+        }
+        for (k, (_, lb)) in &mb {
+            if !ma.contains_key(k) {
+                let mut p = path_to(&parent, idx);
+                p.push(*lb.iter().next().unwrap());
+                return Err((Cex { path: p, why: "item expected on the right only".into() }, st));
+            }
+        }
+        for (k, (ta, la)) in ma {
+            st.transitions += 1;
+            let tb = mb[&k].0.clone();
+            let pair = (ta, tb);
+            if !seen.contains_key(&pair) {
+                let i = parent.len();
+                seen.insert(pair.clone(), i);
+                // record one label of this reading for the counterexample path
+                parent.push((idx, *la.iter().next().unwrap()));
+                q.push_back((pair, i));
+            }
+        }
+    }
+    Ok(st)
+}
+
 #[cfg(test)]
 mod tests {
     use super::*;
